@@ -570,6 +570,101 @@ func C14(tier Tier) int {
 			}
 		}
 	}
+	// decoded values do not share memory with the buffer they were decoded from: after decoding,
+	// the buffer is overwritten (a reused read buffer) and the decoded value must be unchanged;
+	// appending to a decoded field must not write into the buffer either
+	{
+		stepA := 1
+		if !tier.Thorough() {
+			stepA = 3
+		}
+		for i := 0; i < len(valid); i += stepA {
+			orig := valid[i]
+			for which := 0; which < 3; which++ {
+				buf := append(make([]byte, 0, len(orig)+16), orig...)
+				var before, after []byte
+				var grow func()
+				switch which {
+				case 0:
+					t := &esdt.ESDigitalToken{}
+					if t.Unmarshal(buf) != nil {
+						continue
+					}
+					before, _ = t.Marshal()
+					grow = func() {
+						t.Properties = append(t.Properties, 0x77, 0x77)
+						t.Reserved = append(t.Reserved, 0x77)
+						if t.TokenMetaData != nil {
+							for k := range t.TokenMetaData.URIs {
+								t.TokenMetaData.URIs[k] = append(t.TokenMetaData.URIs[k], 0x77, 0x77)
+							}
+							t.TokenMetaData.Name = append(t.TokenMetaData.Name, 0x77)
+							t.TokenMetaData.Attributes = append(t.TokenMetaData.Attributes, 0x77)
+						}
+					}
+					snapshot := append([]byte{}, buf...)
+					grow()
+					if !bytes.Equal(buf, snapshot) {
+						ws[0].Fail(P, "decode", "decoded-value-shares-buffer", fmt.Sprintf("appending to the fields of a token decoded from %x wrote into the buffer it was decoded from", orig), "case", fmt.Sprintf("alias-buf:%x", orig))
+					}
+					t2 := &esdt.ESDigitalToken{}
+					_ = t2.Unmarshal(orig)
+					for k := range buf {
+						buf[k] = 0xee
+					}
+					_ = grow
+					t3 := &esdt.ESDigitalToken{}
+					_ = t3.Unmarshal(append([]byte{}, orig...))
+					after, _ = t3.Marshal()
+					// the value decoded before the buffer was overwritten, minus what grow appended
+					tchk := &esdt.ESDigitalToken{}
+					if tchk.Unmarshal(append([]byte{}, orig...)) == nil {
+						tb := &esdt.ESDigitalToken{}
+						bb := append(make([]byte, 0, len(orig)+16), orig...)
+						if tb.Unmarshal(bb) == nil {
+							for k := range bb {
+								bb[k] = 0xee
+							}
+							now, _ := tb.Marshal()
+							if !bytes.Equal(now, before) {
+								ws[0].Fail(P, "decode", "decoded-value-shares-buffer", fmt.Sprintf("a token decoded from %x changed when the buffer was overwritten afterwards (it re-encodes to %x instead of %x)", orig, now, before), "case", fmt.Sprintf("alias-buf:%x", orig))
+							}
+						}
+					}
+					_ = after
+				case 1:
+					m := &esdt.MetaData{}
+					bb := append(make([]byte, 0, len(orig)+16), orig...)
+					if m.Unmarshal(bb) != nil {
+						continue
+					}
+					before, _ = m.Marshal()
+					for k := range bb {
+						bb[k] = 0xee
+					}
+					now, _ := m.Marshal()
+					if !bytes.Equal(now, before) {
+						ws[0].Fail(P, "decode", "decoded-value-shares-buffer", fmt.Sprintf("metadata decoded from %x changed when the buffer was overwritten afterwards", orig), "case", fmt.Sprintf("alias-buf-meta:%x", orig))
+					}
+				case 2:
+					r := &esdt.ESDTRoles{}
+					bb := append(make([]byte, 0, len(orig)+16), orig...)
+					if r.Unmarshal(bb) != nil {
+						continue
+					}
+					before, _ = r.Marshal()
+					for k := range bb {
+						bb[k] = 0xee
+					}
+					now, _ := r.Marshal()
+					if !bytes.Equal(now, before) {
+						ws[0].Fail(P, "decode", "decoded-value-shares-buffer", fmt.Sprintf("a role list decoded from %x changed when the buffer was overwritten afterwards", orig), "case", fmt.Sprintf("alias-buf-roles:%x", orig))
+					}
+				}
+			}
+		}
+		ws[0].Case("decode-owns-its-memory")
+	}
 	// hostile varints: every tag (field 1..9 x wire type 0..5) followed by every extreme varint
 	// (as a value or as a length), bare, followed by a few bytes, and nested inside the token's
 	// metadata field
